@@ -164,7 +164,7 @@ def emit_cif(table, null_icode="?", null_alt=".", null_occ="?", label_differs=Fa
             rk = (a["chain"], a["resseq"], a["icode"])
             if rk not in lab_seq:
                 lab_seq[rk] = len([1 for k in lab_seq if k[0] == a["chain"]]) + 1
-        la = lab_asym[a["chain"]] if label_differs else a["chain"]
+        la = lab_asym[a["chain"]] if label_differs else (a["chain"] if a["chain"] is not None else "Q")
         ls = str(lab_seq[(a["chain"], a["resseq"], a["icode"])]) if label_differs else str(a["resseq"])
         V = lambda s: ("v", str(s))
         N = lambda m: ("n", m)
@@ -176,7 +176,7 @@ def emit_cif(table, null_icode="?", null_alt=".", null_occ="?", label_differs=Fa
             V(a["altloc"]) if a["altloc"] else N(null_alt), V(a["resname"]), V(la), V("1"), seqv,
             V(a["icode"]) if a["icode"] else N(null_icode), V(dec(a["x"], 3)), V(dec(a["y"], 3)), V(dec(a["z"], 3)),
             V(dec(a["occ"], 2)) if a["occ"] is not None else N(null_occ), V(dec(a["b"], 2)),
-            V(a["charge"]) if a["charge"] else N("?"), V(a["resseq"]), V(a["resname"]), V(a["chain"]), V(a["name"]), V(a["model"]),
+            V(a["charge"]) if a["charge"] else N("?"), V(a["resseq"]), V(a["resname"]), V(a["chain"]) if a["chain"] is not None else N("?"), V(a["name"]), V(a["model"]),
         ))
     cats = {"entry": (["id"], [(("v", "VERIF"),)])}
     if extra_categories:
